@@ -4,6 +4,8 @@ Abstract value = set of regions of the mutable objects reachable from it:
   INT  array stored in StateManager._current / _history      INTC  those containers themselves
   CACHE / CACHEC  the results cache and its arrays            PARAM / PARAMC  caller-owned argument
   FRESH  allocated by this call                               SCALAR  immutable
+  ATTR   object held in (or, in the same call, stored into) any other instance attribute — a memo, a cache, a buffer:
+         handing it out unchanged aliases internal state exactly like INT does
 The analysis is flow-insensitive per function and composes through per-function summaries.
 It over-approximates aliasing (a reported alias may be infeasible; a discharged obligation is sound
 for the subset: no reflection, arrays only mutated through the patterns scanned in `history_writes`).
@@ -12,7 +14,7 @@ import ast
 
 from .eff import dotted, qualname_index
 
-ARR_BAD = {"INT", "CACHE", "PARAM"}
+ARR_BAD = {"INT", "CACHE", "PARAM", "ATTR"}
 CONT = {"INTC", "CACHEC", "PARAMC"}
 SAFE = {"FRESH", "SCALAR"}
 
@@ -27,8 +29,35 @@ FRESH_CALLS = {"np.array", "np.concatenate", "np.stack", "np.vstack", "np.hstack
                "np.linalg.cholesky", "np.linalg.norm", "np.linalg.matrix_rank", "np.squeeze_copy", "len", "int", "float",
                "bool", "str", "abs", "min", "max", "sum", "sorted", "range", "isinstance", "getattr", "hasattr",
                "print", "Path", "dill.dumps", "dill.load", "math.sqrt", "np.dtype", "np.log1p"}
+REDUCERS = {"np.sum", "np.max", "np.min", "np.mean", "np.logaddexp.reduce", "np.trace", "np.linalg.det", "np.linalg.matrix_rank", "np.any",
+            "np.all", "np.argmax", "np.argmin", "np.median", "np.var", "np.std", "np.prod", "len", "int", "float", "bool", "str", "abs"}
+ELEMENTWISE = {"np.log", "np.exp", "np.sqrt", "np.abs", "np.log1p", "np.minimum", "np.maximum", "np.clip", "np.isfinite", "np.isinf",
+               "math.sqrt", "math.log", "math.exp", "min", "max", "np.float64", "np.nan_to_num"}
 ALIAS_CALLS = {"np.asarray", "np.atleast_1d", "np.squeeze", "np.reshape", "np.ravel", "np.transpose", "np.ascontiguousarray"}
 SHALLOW_CALLS = {"list", "dict", "tuple", "set"}
+
+
+def _direct_names(v):
+    """names whose *object itself* (not a copy / derived value) ends up inside the stored value"""
+    if isinstance(v, ast.Name):
+        return [v]
+    if isinstance(v, (ast.Tuple, ast.List, ast.Set)):
+        return [n for e in v.elts for n in _direct_names(e)]
+    if isinstance(v, ast.Dict):
+        return [n for e in v.values if e is not None for n in _direct_names(e)]
+    if isinstance(v, ast.IfExp):
+        return _direct_names(v.body) + _direct_names(v.orelse)
+    if isinstance(v, ast.Subscript) and isinstance(v.slice, ast.Slice):
+        return _direct_names(v.value)
+    if isinstance(v, ast.Attribute) and v.attr in ("T", "real", "flat"):
+        return _direct_names(v.value)
+    if isinstance(v, ast.Call):
+        d = (dotted(v.func) or "").replace("numpy.", "np.")
+        if d in ALIAS_CALLS or d in SHALLOW_CALLS:
+            return [n for a in v.args[:1] for n in _direct_names(a)]
+        if isinstance(v.func, ast.Attribute) and v.func.attr in ("reshape", "ravel", "squeeze", "view", "transpose"):
+            return _direct_names(v.func.value)
+    return []
 
 
 class Own:
@@ -38,6 +67,49 @@ class Own:
         self.memo = {}
         self.stack = set()
         self.writes = {}     # (module, qualname) -> list of (store, regions, lineno)
+        self._attr_memo = {}
+
+    KNOWN_ATTRS = {"_current", "_history", "_results_dict"}
+
+    def mutable_attrs(self, module, cls):
+        """attributes of `cls` that some method assigns a non-scalar value to (other than the three known stores): reading one
+        yields region ATTR.  `self.x = <constructor parameter>` in __init__ is configuration and stays SCALAR."""
+        key = (module, cls)
+        if key in self._attr_memo:
+            return self._attr_memo[key]
+        self._attr_memo[key] = set()
+        out = set()
+        scalar_typed = set()     # declared scalar by the constructor signature: self.x = x with x: int | float | bool | str
+        init = self.idx.get((module, cls + ".__init__"))
+        if init is not None:
+            ann = {a.arg: ast.unparse(a.annotation) for a in init.args.args + init.args.kwonlyargs if a.annotation is not None}
+            for n in ast.walk(init):
+                if isinstance(n, ast.Assign) and isinstance(n.value, ast.Name) and n.value.id in ann:
+                    if all(w in ("int", "float", "bool", "str", "Optional", "None", "Union") for w in
+                           ast.unparse(ast.parse(ann[n.value.id]).body[0].value).replace("[", " ").replace("]", " ").replace(",", " ").replace("|", " ").split()):
+                        for t in n.targets:
+                            if isinstance(t, ast.Attribute) and isinstance(t.value, ast.Name) and t.value.id == "self":
+                                scalar_typed.add(t.attr)
+        for (m, q), f in self.idx.items():
+            if m != module or not q.startswith(cls + "."):
+                continue
+            params = {a.arg for a in f.args.args}
+            for n in ast.walk(f):
+                tg = n.targets if isinstance(n, ast.Assign) else ([n.target] if isinstance(n, (ast.AnnAssign, ast.AugAssign)) else [])
+                for t in tg:
+                    if isinstance(t, ast.Attribute) and isinstance(t.value, ast.Name) and t.value.id == "self" and t.attr not in self.KNOWN_ATTRS:
+                        v = getattr(n, "value", None)
+                        if v is None or isinstance(v, ast.Constant):
+                            continue
+                        if q.endswith(".__init__") and isinstance(v, ast.Name) and v.id in params:
+                            continue
+                        if isinstance(v, (ast.Tuple, ast.List, ast.Dict, ast.Set, ast.ListComp, ast.DictComp)) or isinstance(v, (ast.Name, ast.Subscript, ast.Call, ast.BinOp, ast.Attribute, ast.IfExp)):
+                            if isinstance(v, ast.Call) and (dotted(v.func) or "") in ("int", "float", "bool", "str", "len", "Path", "time.time"):
+                                continue
+                            out.add(t.attr)
+        out -= scalar_typed
+        self._attr_memo[key] = out
+        return out
 
     # ------------------------------------------------------------------ summaries
     def summary(self, module, qualname, assume=None):
@@ -69,6 +141,24 @@ class Own:
         self.writes[key[:2] + (key[2],)] = list(writes)
         return res
 
+    def _is_object_attr(self, module, cls, attr):
+        """attributes bound to collaborating objects (state manager, steps, config ...): `self.x = SomeClass(...)` / a constructor
+        parameter; they are not array-like values an accessor could hand out."""
+        for (m, q), f in self.idx.items():
+            if m != module or not q.startswith(cls + "."):
+                continue
+            for n in ast.walk(f):
+                if isinstance(n, ast.Assign):
+                    for t in n.targets:
+                        if isinstance(t, ast.Attribute) and isinstance(t.value, ast.Name) and t.value.id == "self" and t.attr == attr:
+                            v = n.value
+                            if isinstance(v, ast.Call):
+                                name = (dotted(v.func) or "").split(".")[-1]
+                                if name[:1].isupper():
+                                    continue
+                            return False
+        return True
+
     def _block(self, stmts, env, module, cls, assume, rets, writes):
         for s in stmts:
             self._stmt(s, env, module, cls, assume, rets, writes)
@@ -97,6 +187,17 @@ class Own:
                         writes.append((d.split(".", 1)[1].split(".")[0], R, s.lineno, "store"))
                     elif isinstance(t, ast.Attribute) and d == "self":
                         env["self." + t.attr] = env.get("self." + t.attr, frozenset()) | R
+                        if isinstance(s.value, ast.Tuple):      # element-wise regions of a stored tuple literal (same function only)
+                            for k_, el in enumerate(s.value.elts):
+                                key_ = f"self.{t.attr}#{k_}"
+                                env[key_] = env.get(key_, frozenset()) | ev(el)
+                        elif not (isinstance(s.value, ast.Constant) and s.value.value is None):
+                            env[f"self.{t.attr}#opaque"] = frozenset({"ATTR"})
+                        if t.attr not in self.KNOWN_ATTRS and (R - {"SCALAR"}):
+                            # the stored objects are now reachable from the instance: every local naming one of them is an alias
+                            for nm in _direct_names(s.value):
+                                if env.get(nm.id, frozenset()) - {"SCALAR"}:
+                                    env[nm.id] = env[nm.id] | frozenset({"ATTR"})
         elif isinstance(s, ast.AugAssign):
             pass
         elif isinstance(s, ast.AnnAssign) and s.value is not None:
@@ -160,11 +261,18 @@ class Own:
             if d == "self._results_dict":
                 return F({"CACHEC", "CACHE"})
             if d and d.startswith("self.") and d.count(".") == 1:
+                if cls and e.attr in self.mutable_attrs(module, cls) and e.attr not in RECEIVER_CLASS and not self._is_object_attr(module, cls, e.attr):
+                    return env.get(d, F()) | F({"ATTR"})
                 return env.get(d, F({"SCALAR"}))
             if e.attr in ("T", "real", "flat"):
                 return ev(e.value)
             return F({"SCALAR"})
         if isinstance(e, ast.Subscript):
+            dv = dotted(e.value) or ""
+            if dv.startswith("self.") and dv.count(".") == 1 and isinstance(e.slice, ast.Constant) and isinstance(e.slice.value, int) \
+                    and f"{dv}#{e.slice.value}" in env and f"{dv}#opaque" not in env:
+                Rk = env[f"{dv}#{e.slice.value}"]
+                return F({"SCALAR"}) if Rk <= {"SCALAR"} else F(Rk | {"ATTR"})
             R = ev(e.value)
             # a[fancy] of a bare array copies; a[slice] is a view; container[key] yields an element
             if not (R & CONT) and not isinstance(e.slice, ast.Slice) and isinstance(e.slice, ast.Name) \
@@ -174,6 +282,9 @@ class Own:
         if isinstance(e, (ast.BinOp, ast.UnaryOp, ast.Compare, ast.BoolOp)):
             if isinstance(e, ast.BoolOp):
                 return F().union(*[ev(v) for v in e.values])
+            ops = [e.left, e.right] if isinstance(e, ast.BinOp) else ([e.operand] if isinstance(e, ast.UnaryOp) else [e.left] + list(e.comparators))
+            if all(ev(o) <= {"SCALAR"} for o in ops):
+                return F({"SCALAR"})        # arithmetic on immutable scalars yields an immutable scalar
             return F({"FRESH"})
         if isinstance(e, ast.IfExp):
             t = e.test
@@ -240,6 +351,8 @@ class Own:
                 return F({"FRESH"})
             if m in ("items", "values", "keys", "get", "pop"):
                 return F(R - CONT) if (R - CONT) else F({"SCALAR"})
+            if m in ("sum", "mean", "max", "min", "any", "all", "std", "item") and not any(k.arg == "axis" for k in e.keywords) and not e.args:
+                return F({"SCALAR"})        # full reduction: a numpy scalar (immutable)
             if m in ("astype", "sum", "mean", "max", "min", "tolist", "flatten", "any", "all", "std", "dot", "cumsum"):
                 return F({"FRESH"})
             if m in ("reshape", "ravel", "squeeze", "view", "transpose"):
@@ -253,6 +366,10 @@ class Own:
         if nd in SHALLOW_CALLS:
             R = args[0] if args else F()
             return F({"FRESH"}) | F(R - CONT - {"SCALAR"})
+        if nd in REDUCERS and not any(k.arg in ("axis", "keepdims") for k in e.keywords) and len(e.args) == 1:
+            return F({"SCALAR"})            # full reduction: a numpy scalar (immutable)
+        if nd in ELEMENTWISE and args and all(a <= {"SCALAR"} for a in args):
+            return F({"SCALAR"})
         if nd in FRESH_CALLS or nd.startswith("np.") or nd.startswith("math.") or nd.startswith("os."):
             return F({"FRESH"})
         # package-level functions: use their summary
